@@ -431,6 +431,7 @@ fn nfs_scenario(k: usize, observer_is_observe: bool, second: bool, warm: bool, d
             match ctl.settle(ROLE_COMPLETED, 1000) {
                 Stop::Done => {}
                 Stop::ParkedInLock => return Err("a second add_trusted_path WAITS for the base-time writer lock held by the suspended one".to_string()),
+                Stop::StepCap => return Err("a second add_trusted_path (wait-free try_update inside) does not complete within 1000 of its own steps while the first one is suspended".to_string()),
                 other => return Err(format!("harness: the second add_trusted_path stopped at {:?}", other)),
             }
         }
